@@ -508,6 +508,12 @@ func (ev *Evaluator) load(st *State, addr *T, typ types.Type) *T {
 	// a whole opaque value stored at an ancestor
 	if addr.Op == "faddr" {
 		if pv, ok := st.cells[addr.Args[0]]; ok && pv.Op != "struct" {
+			// a field of "what was at X when nothing had been written there" is what was at X.f then (a struct copied
+			// as a whole by a generic helper, whose body cannot name the fields)
+			if pv.Op == "init" && pv.Aux == "" && len(pv.Args) == 1 {
+				src := ev.TS.intern(&T{Op: "faddr", Aux: addr.Aux, Args: []*T{pv.Args[0]}, Typ: addr.Typ})
+				return ev.TS.intern(&T{Op: "init", Aux: "", Args: []*T{src}, Typ: typ})
+			}
 			return ev.TS.intern(&T{Op: "fld", Aux: addr.Aux, Args: []*T{pv}, Typ: typ})
 		}
 	}
@@ -617,6 +623,14 @@ func (ev *Evaluator) LoadField(st *State, ptr *T, fields ...string) *T {
 					if a, okA := toActual[n.Obj().Pkg().Name()+"."+typeCanonName(n.Obj())+"."+f]; okA {
 						want = a
 					}
+				}
+				if i > 0 && strings.Contains(want, ".") {
+					// the actual counterpart lives in a by-value part under a clashing leaf name ("failure.threshold")
+					c2 := cur
+					if c2.Typ == nil {
+						c2.Typ = typ
+					}
+					return ev.LoadField(st, c2, append(strings.Split(want, "."), fields[i+1:]...)...)
 				}
 				for j := 0; j < s.NumFields(); j++ {
 					if s.Field(j).Name() == want || embeddedCanon(s.Field(j)) == want {
@@ -1152,7 +1166,11 @@ func (ev *Evaluator) runState(st *State) (*Path, []*State) {
 					if r == nil || r.Typ == nil {
 						continue
 					}
-					if _, isTP := r.Typ.(*types.TypeParam); !isTP {
+					_, isTP := r.Typ.(*types.TypeParam)
+					if pt, isPtr := r.Typ.(*types.Pointer); isPtr && !isTP {
+						_, isTP = pt.Elem().(*types.TypeParam) // *T: a fresh copy made by a generic helper
+					}
+					if !isTP {
 						continue
 					}
 					var static types.Type = fr.retTo.Type()
@@ -2161,6 +2179,19 @@ func (ev *Evaluator) doCall(st *State, fr *Frame, c *ssa.CallCommon, instr ssa.I
 			!ev.isProtocol(callee) && !ev.Cfg.Opaque[canonName(callee)] {
 			inline = true
 		}
+		// a helper of another library package that the reviewed tree does not have (a shared NotifyListener, a
+		// ContextOrBackground moved to internal/) is the code it replaced in the caller
+		callerTop := fr.fn
+		for callerTop.Parent() != nil {
+			callerTop = callerTop.Parent()
+		}
+		if !inline && !ev.Cfg.NoSamePkgInline && !c.IsInvoke() && e.FnTerm == nil && callee.Parent() == nil && callee.Pkg != nil && callee.Pkg != ev.rootPkg &&
+			callee.Pkg != callerTop.Pkg && callee.Object() != nil && callee.Object().Exported() &&
+			ev.P.InScope[callee] && !ev.Cfg.Opaque[canonName(callee)] && !ev.isProtocol(callee) {
+			if _, known := refParamNames(ev.P.CanonFuncName(callee)); !known {
+				inline = true
+			}
+		}
 		// a call bound through a collaborator seam is the adapter the restructuring introduced: part of the caller
 		if !inline && devirt && ev.P.InScope[callee] {
 			// ... unless it is a function the upstream tree already has: then it is an ordinary call
@@ -2225,6 +2256,28 @@ func (ev *Evaluator) doCall(st *State, fr *Frame, c *ssa.CallCommon, instr ssa.I
 				aux = fmt.Sprintf("%s#%d@%d", e.Method, i, st.epoch)
 			}
 			e.Res = append(e.Res, ts.intern(&T{Op: "app", Aux: aux, Args: args, Typ: rt}))
+		}
+		// context.Context: "If Done is closed, Err returns a non-nil error" — an Err() read after the path received
+		// from that context's Done channel is not nil
+		// … and likewise the execution's LastError() after its Canceled() channel was received from (the library's own
+		// guarantee, decided by the LastError table of the flags rule: no recorded error ∧ context done ⇒ the context's error)
+		if (e.Method == "Err" || e.Method == "LastError") && e.Recv != nil && len(e.Res) == 1 {
+			for _, x := range st.Events {
+				var ch *T
+				switch {
+				case x.Kind == EvSelect && x.Chosen >= 0 && x.Chosen < len(x.Cases) && x.Cases[x.Chosen].Dir == types.RecvOnly:
+					ch = x.Cases[x.Chosen].Chan
+				case x.Kind == EvRecv:
+					ch = x.Addr
+				}
+				want := "Done@"
+				if e.Method == "LastError" {
+					want = "Canceled@"
+				}
+				if ch != nil && ch.Op == "app" && strings.HasPrefix(ch.Aux, want) && len(ch.Args) == 1 && ch.Args[0] == e.Recv {
+					st.Facts.nils[e.Res[0]] = false
+				}
+			}
 		}
 		ev.emit(st, e)
 	} else {
